@@ -12,6 +12,7 @@ import BV.C12.Gen
 import BV.C12.Lemmas4
 import BV.C12.Lemmas5
 import BV.C12.Lemmas6
+import BV.C12.Compose3
 import BV.Generated.C12
 namespace BV.C12
 open Spec
@@ -206,6 +207,60 @@ theorem earlier_template_stays_valid (law : QueueLaw ops) (e : Env) (poolA poolB
     (generateTwice ops e poolA poolB fuelA fuelB).1 = Result.ok (candidate ops e poolA fuelA)
     ∧ blockValid e poolA (candidate ops e poolA fuelA) = true :=
   ⟨generation_succeeds law e poolA fuelA hp he hno hseq hmax, template_valid law e poolA fuelA hp he hno hseq hmax⟩
+
+/-! ## Composition with the sibling properties -/
+
+/-- **`Spec.blockValid` is C01's validity.**  Any template satisfying `Spec.blockValid` satisfies every
+one of C01's 36 consensus rules (`C01.Valid`) on its block description `descOf` — the description is
+DERIVED from the abstract template for everything the generator decides (transactions, order,
+per-input availability / origin / amounts as `Spec.connect` sees them, lock times and sequences,
+coinbase value, commitment presence, header time); the facts outside the selection are a `Shell`
+with explicit hypotheses `ShellOk`: proof of work solved and bits as required (C09), header version,
+merkle root / no duplicate txids / sizes / BIP34 height (C13), legacy-sigop pre-check, BIP30, the
+split of each oracle sigop cost and of the block weight into C13's components, the coinbase's own
+shape, deployment heights and parameters agreeing with the environment. -/
+theorem blockValid_implies_c01 (e : Env) (pool : List Tx) (tpl : Template) (sh : Shell)
+    (hp : PoolOk pool) (hshape : ShapeOk pool) (hs : ShellOk e pool tpl sh)
+    (hv : blockValid e pool tpl = true) : BV.C01.Valid (descOf e pool tpl sh) :=
+  blockValid_c01 hp hshape hs hv
+
+/-- **End to end (C12 ∘ C01):** the template the generator produces satisfies C01's `Valid` — "the
+template is a consensus-valid block given script-ok oracle bits and proof of work solved". -/
+theorem template_valid_c01 (law : QueueLaw ops) (e : Env) (pool : List Tx) (fuel : Nat) (sh : Shell)
+    (hp : PoolOk pool) (he : EnvOk e) (hno : feesNotOverstatedB e pool = true)
+    (hseq : pool.all (seqLocksOk e) = true) (hmax : e.maxWeight ≤ MAX_BLOCK_WEIGHT)
+    (hshape : ShapeOk pool) (hs : ShellOk e pool (candidate ops e pool fuel) sh) :
+    BV.C01.Valid (descOf e pool (candidate ops e pool fuel) sh) :=
+  blockValid_c01 hp hshape hs (template_valid law e pool fuel hp he hno hseq hmax)
+
+/-- C09: the subsidy in the coinbase rule is `calcBlockSubsidy`; C01's `subsidy` is the same number. -/
+theorem subsidy_is_c09 (e : Env) :
+    subsidy e = BV.C09.calcBlockSubsidy e.nextHeight e.halving
+    ∧ BV.C01.subsidy e.nextHeight e.halving = (subsidy e : Int) :=
+  ⟨subsidy_eq_c09 e, c01_subsidy_eq e⟩
+
+/-- C13: `Spec.blockWeight` is `GetBlockWeight` of coinbase + selected transactions when the weight
+oracles are `GetTransactionWeight` of the real transactions. -/
+theorem blockWeight_is_c13 (e : Env) (pool : List Tx) (tpl : Template) (cb : BV.C13.Tx) (txs : List BV.C13.Tx)
+    (hcb : BV.C13.txWeight cb = e.cbWeight + (if tpl.commitment then WITNESS_RESERVE else 0))
+    (htx : txs.map BV.C13.txWeight = (txsOf pool tpl.sel).map (·.weight))
+    (hlen : txs.length = tpl.sel.length) :
+    Spec.blockWeight e pool tpl = BV.C13.blockWeight (cb :: txs) :=
+  spec_blockWeight_c13 e pool tpl cb txs hcb htx hlen
+
+/-- C13: the model's lock-time finality is `IsFinalTx`. -/
+theorem finality_is_c13 (t : Tx) (h c : Int)
+    (hflag : t.allSeqMax = t.ins.all (fun i => decide (i.sequence = BV.C13.Spec.SEQUENCE_FINAL))) :
+    isFinalized t h c = BV.C13.Spec.isFinal t.lockTime (t.ins.map (·.sequence)) h c :=
+  isFinalized_eq_c13 t h c hflag
+
+/-- C13: `Spec.seqLocksOk` is BIP68's `sequenceLocks` + `locksSatisfied`. -/
+theorem bip68_is_c13 (e : Env) (t : Tx) (hcs : e.csv = true) (hv : ¬ t.version < 2)
+    (hcb : isCoinbase t = false) :
+    seqLocksOk e t = true ↔
+      BV.C13.Spec.locksSatisfied (BV.C13.Spec.sequenceLocks true (t.ins.map (seqInputOf e))).1
+        (BV.C13.Spec.sequenceLocks true (t.ins.map (seqInputOf e))).2 e.nextHeight e.mtp = true :=
+  seqLocksOk_c13 e t hcs hv hcb
 
 /-! ## F-C12-a: why the clock matters -/
 
